@@ -27,7 +27,7 @@ Inductive case :=
     context), Unregister of those processors, Register of [extra] further ones, and end spans.
     Observed afterwards: Shutdown calls per processor, whether a fresh tracer still records,
     error classes of a final ForceFlush and Shutdown. *)
-| CStorm (n extra : N) (shutdowns : list N) (fresh_records : bool) (flush_err shutdown_err : err)
+| CStorm (kinds : list pk) (n extra : N) (shutdowns xshutdowns : list N) (fresh_records : bool) (flush_err shutdown_err : err)
 (** one round of concurrent Shutdown / ForceFlush callers on a fresh LoggerProvider / MeterProvider *)
 | CStormL (procs : list lk) (pshut xshut : list N) (shut_errs flush_errs : list err)
 | CStormM (readers : list rk) (xshut : list N) (shut_errs flush_errs collect_after : list err).
@@ -77,10 +77,13 @@ Definition flag (b : bool) (code : N) : list N := if b then [] else [code].
 (** Storm judge (the property, on what is observable afterwards): every processor registered
     before the storm was shut down exactly once, those registered during it at most once;
     afterwards a fresh tracer does not record and ForceFlush / Shutdown return nil. *)
-Definition storm_ok (n extra : nat) (shutdowns : list nat) (fresh_records : bool) (fe se : err) : bool :=
-  Nat.eqb (length shutdowns) (n + extra) &&
+Definition storm_ok (kinds : list pk) (n extra : nat) (shutdowns xshutdowns : list nat) (fresh_records : bool) (fe se : err) : bool :=
+  Nat.eqb (length shutdowns) (n + extra) && Nat.eqb (length xshutdowns) (n + extra) && Nat.eqb (length kinds) (n + extra) &&
   forallb (fun c => Nat.eqb c 1) (firstn n shutdowns) &&
   forallb (fun c => Nat.leb c 1) (skipn n shutdowns) &&
+  (* each exporter is shut down exactly when (and as often as) its processor is: once or never *)
+  forallb (fun kcx => let '(k, c, x) := kcx in Nat.eqb x (if has_x k then c else 0))
+          (combine (combine kinds shutdowns) xshutdowns) &&
   negb fresh_records && err_eqb fe ENil && err_eqb se ENil.
 
 (** Trace: a Shutdown whose context is already cancelled is told to every processor, each of which
@@ -110,8 +113,8 @@ Definition check_case (c : case) : list N :=
   | CT kinds members ops obs =>
       let ms := map n2 members in
       flag (tmatch (kinds_fn kinds) (tinit ms) false ops obs) V_MISMATCH ++
-      flag (Nat.eqb (length ops) (length obs) && tspec_ok ms (combine ops obs)) V_SPECFAIL ++
-      flag (tspec_ok ms (trun (kinds_fn kinds) (tinit ms) ops)) V_MODELSPEC
+      flag (Nat.eqb (length ops) (length obs) && tspec_ok (kinds_fn kinds) ms (combine ops obs)) V_SPECFAIL ++
+      flag (tspec_ok (kinds_fn kinds) ms (trun (kinds_fn kinds) (tinit ms) ops)) V_MODELSPEC
   | CM readers ops obs =>
       match mrun readers ops, obs with
       | Ok m, Some o =>
@@ -128,8 +131,8 @@ Definition check_case (c : case) : list N :=
           flag (lspec_ok procs (map (fun x => (fst x, a_obs (snd x))) m)) V_MODELSPEC
       | _, _ => [V_MISMATCH; V_SPECFAIL]
       end
-  | CStorm n extra sh fr fe se =>
-      flag (storm_ok (n2 n) (n2 extra) (map n2 sh) fr fe se) V_SPECFAIL
+  | CStorm kinds n extra sh xsh fr fe se =>
+      flag (storm_ok kinds (n2 n) (n2 extra) (map n2 sh) (map n2 xsh) fr fe se) V_SPECFAIL
   | CStormL procs ps xs se fe =>
       flag (lstorm_ok procs (map n2 ps) (map n2 xs) se fe) V_SPECFAIL
   | CStormM readers xs se fe ca =>
